@@ -23,6 +23,20 @@ GPS_DATES = ["290224", "290200", "290226", "280200", "311299", "010100", "311226
 TMS = ["0003d00001", "00021f00", "00049f009520", "000de001019544610068006f006a00", "0002d000", "00039f0005", "0005e000056100", "0004d0020a0b", "00065f0201029f3f"]
 
 
+_SCAN = []
+
+
+def scan_rows():
+    """the AST inventory of the source as it is now (tools/scan_state.py), computed once per run (the tree must not change under a
+    run anyway: c19.source_fingerprint)"""
+    if not _SCAN:
+        spec = importlib.util.spec_from_file_location("scan_state", os.path.join(VERIF, "tools", "scan_state.py"))
+        mod = importlib.util.module_from_spec(spec)
+        spec.loader.exec_module(mod)
+        _SCAN.append([tuple(x) for x in mod.scan()])
+    return _SCAN[0]
+
+
 def add_model_entry_points(ep, h):
     """h: helper namespace of c19.py (B, BL, X, XA, I, S, N, rbits, rhex, flip_hex)"""
     B, BL, X, XA, I, S, rbits, rhex = h["B"], h["BL"], h["X"], h["XA"], h["I"], h["S"], h["rbits"], h["rhex"]
@@ -158,6 +172,9 @@ def line_of(spec, py_result=None):
     elif name == "m.gpsdate":
         if len(a) != 1 or a[0][0] != "s" or not isinstance(a[0][1], str) or len(a[0][1]) != 6 or set(a[0][1]) - set("0123456789"):
             return None
+    elif name == "m.element":
+        if len(a) != 2 or not _in_domain(a[0], ("s",)) or not _in_domain(a[1], ("i",)):
+            return None
     if name == "m.crc.shared":
         d, le = _bits(a[1])
         return f"crc.shared {a[0][1]} {d} {le}"
@@ -181,6 +198,8 @@ def line_of(spec, py_result=None):
     if name == "m.gpsdate":
         d = a[0][1]
         return f"gpsdate {int(d[0:2])} {int(d[2:4])} {int(d[4:6])}"
+    if name == "m.element":
+        return f"element {a[0][1]} {a[1][1]}"
     if name == "m.gettoken":
         attrs = " ".join(f"{_key(p[1][0])}={'none' if p[1][1][0] == 'n' else p[1][1][1]}" for p in a[2][1])
         return f"gettoken {a[0][1]} {_key(a[1])}" + (" " + attrs if attrs else "")
@@ -279,10 +298,7 @@ def model_lines(ctx, pool, ref, histories, resp, clocks=None):
         pairs.append(("reset", "ok"))
     out["import-clock"] = pairs
     # (3) the inventory compiled into the model == the inventory of the source as it is now
-    spec = importlib.util.spec_from_file_location("scan_state", os.path.join(VERIF, "tools", "scan_state.py"))
-    mod = importlib.util.module_from_spec(spec)
-    spec.loader.exec_module(mod)
-    rows = mod.scan()
+    rows = scan_rows()
     pairs = [("inventory.count", str(len(rows)))] + [(f"inventory.item {i}", " | ".join(r)) for i, r in enumerate(rows)]
     out["inventory"] = pairs
     ctx.count("inventory:items", len(rows))
